@@ -137,6 +137,15 @@ package rules
 //	known false across the opaque initFromSignedRequest under NoHavoc, seeded e went silent; c06Verify now forgets
 //	the fields an opaque same-package callee assigns)
 //
+// Robustness pass, third set (/verif/preserving/C06/r9..r12, all silent now): the verification-side body
+// hashing is resolved as "the entry in Verify's reach that takes the request and assigns BodyHash (itself or
+// through what it calls)" and analysed over its reach, with or without a verify flag (hashBodyForVerification /
+// hashBodyContent); sign is "the function that calls canon" whether it stores or returns the signature; the
+// presented/recomputed sides of the comparison follow either convention; the secret is followed through a
+// lookup helper's results; a validator field may be an unexported interface in front of the validator;
+// user/password may travel in a result struct. Mutants of those shapes (x1..x6, x8) are all caught; the
+// direct `ctx.Signature == ctx.computeSignature(req)` variant (x7) is silent.
+//
 // Not caught (outside the decided clauses, see NotDecided): N1 verify rebuilds the canonical headers from
 // empty values; N2 getCanonicalQuery keeps only the first value of every parameter (both are caught by the
 // signer's known-answer tests).
@@ -1044,7 +1053,10 @@ func c06Handle(c *core.Ctx) {
 	var fields []*types.Var
 	for i := 0; i < strct.NumFields(); i++ {
 		fld := strct.Field(i)
-		if _, isPtr := fld.Type().Underlying().(*types.Pointer); !isPtr {
+		// a pointer to the validator, or an unexported interface put in front of it
+		switch fld.Type().Underlying().(type) {
+		case *types.Pointer, *types.Interface:
+		default:
 			continue
 		}
 		ms := types.NewMethodSet(fld.Type())
